@@ -166,6 +166,9 @@ class BaseMetricLearner(BaseEstimator, metaclass=ABCMeta):
     self._check_preprocessor()
 
     check_is_fitted(self, ['preprocessor_'])
+    # the algorithms take differences of points: integer data is converted
+    # to floats (unsigned or narrow integers would wrap around)
+    kwargs.setdefault('dtype', [np.float64, np.float32])
     outs = check_input(X, y,
                        type_of_inputs=type_of_inputs,
                        preprocessor=self.preprocessor_,
@@ -385,7 +388,8 @@ class MahalanobisMixin(BaseMetricLearner, MetricTransformer,
     check_is_fitted(self, ['preprocessor_'])
     pairs = check_input(pairs, type_of_inputs='tuples',
                         preprocessor=self.preprocessor_,
-                        estimator=self, tuple_size=2)
+                        estimator=self, tuple_size=2,
+                        dtype=[np.float64, np.float32])
     pairwise_diffs = self.transform(pairs[:, 1, :] - pairs[:, 0, :])
     # (for MahalanobisMixin, the embedding is linear so we can just embed the
     # difference)
@@ -441,7 +445,7 @@ class MahalanobisMixin(BaseMetricLearner, MetricTransformer,
       """
       u = validate_vector(u)
       v = validate_vector(v)
-      transformed_diff = (u - v).dot(components_T)
+      transformed_diff = np.subtract(u, v, dtype=float).dot(components_T)
       dist = np.dot(transformed_diff, transformed_diff.T)
       if not squared:
         dist = np.sqrt(dist)
